@@ -228,6 +228,33 @@ func (e *Exec) execVec(c *Cmd, sl *slots) (string, bool, bool) {
 		if len(hits) > 0 {
 			hs = strings.Join(hits, ",")
 		}
+		// the same list walked a second time with Advance to each document in turn (Next within a
+		// document that has several hits): the walk must meet the same hits
+		if firedSuffix == "" {
+			it2 := pl.Iterator(nil)
+			last := ""
+			for i, hstr := range hits {
+				doc := hstr[:strings.IndexByte(hstr, ':')]
+				var p segment.VecPosting
+				var err error
+				if doc != last {
+					dn, _ := strconv.ParseUint(doc, 10, 64)
+					p, err = it2.Advance(dn)
+				} else {
+					p, err = it2.Next()
+				}
+				last = doc
+				got := "nil"
+				if err != nil {
+					got = errKind(err)
+				} else if p != nil {
+					got = fmt.Sprintf("%d:%s", p.Number(), strconv.FormatFloat(float64(p.Score()), 'f', -1, 32))
+				}
+				if got != hstr {
+					return fmt.Sprintf("cnt=%d hits=%s%s advance-walk-differs-at=%d:%s", pl.Count(), hs, fired, i, got), true, true
+				}
+			}
+		}
 		return fmt.Sprintf("cnt=%d hits=%s%s", pl.Count(), hs, fired), true, true
 	case "vclose":
 		if sl != nil && sl.par {
